@@ -80,34 +80,68 @@ def run(R, tier):
             quantities[q] = b
     R.floor("R18.1", "unit quantities", len(quantities), 14)
     n_entries = 0
+    feng = CV.fold_engine("dflt", "scpi")
     for q, b in sorted(quantities.items()):
         oq = o["quantities"].get(q)
         if oq is None:
             R.violation("R18.1", "quantity:" + q, "quantity %s has no row in the SCPI-99 oracle" % q)
             continue
+        # suffix spellings the code itself knows (byte-string constants of the conversion and its helpers' call sites)
+        lits = set()
+        for m_ in b.all_mirs():
+            for bi in m_.live_blocks():
+                blk = m_.blocks[bi]
+                ops = []
+                for st in blk["stmts"]:
+                    if st["k"] == "assign":
+                        ops.extend(_rv_operands(st["rv"]))
+                if blk["term"]["k"] == "call":
+                    ops.extend(blk["term"]["args"])
+                for o_ in ops:
+                    if o_["k"] == "const" and "bytes" in o_["c"]:
+                        t_ = bytes(o_["c"]["bytes"])
+                        if t_ and t_.isalnum():
+                            lits.add(t_.upper())
+        derived = set()
+        for root in oq["roots"]:
+            for pre in o["multipliers"]:
+                derived.add((pre + root).encode())
+        for nm in oq["named"]:
+            derived.add(nm.encode())
+        for ex_, unit_ in o["exceptions"].items():
+            if unit_.endswith(tuple(oq["roots"].values())) or any(ex_.endswith(r_) for r_ in oq["roots"]):
+                derived.add(ex_.encode())
         seen = {}
-        shape_ok = True
-        unknown_ok = False
-        for lit, r, ok, order in suffix_paths(eng, b):
-            shape_ok = shape_ok and ok
-            oc = M.outcome(r)
-            if lit is None:
-                if oc == "Err(IllegalParameterValue)":
-                    unknown_ok = True
-                elif oc != "Err(?)":
-                    shape_ok = False
-                continue
-            unit, newc = unit_of(r)
-            if unit is None:
-                if oc != "Err(?)":
-                    shape_ok = False
-                continue
-            seen.setdefault(lit.decode(), set()).add(unit)
-            # R18.6: the value converted is the token's own numeric part, as a plain decimal element
-            conv = [e for e in r.trace if e.kind == "call" and e.name.endswith("TryFrom::try_from")]
-            okv = len(conv) == 1 and "DecimalNumericProgramData" in repr(conv[0].args[0]) and "tok-DecimalNumericSuffixProgramData-0" in repr(conv[0].args[0]) and "try_from" in repr(newc.args[0])
-            if not okv:
-                R.violation("R18.6", "%s:%s:number" % (q, lit.decode()), "the number scaled for suffix %s of %s is not the token's own numeric part converted as a plain decimal" % (lit.decode(), q), where=b.span)
+        bad_match = []
+        bad_num = []
+        for text in sorted(lits | derived) + [b"XYZ", b"Q"]:
+            for variant in (text, text.lower(), text[:1] + text[1:].lower()):
+                tok = M.token(feng, "DecimalNumericSuffixProgramData", [RefV(Cell(fdai.BytesV(b"1.5"), "num")), RefV(Cell(fdai.BytesV(variant), "suffix"))])
+                try:
+                    res = feng.run(b, [tok])
+                except (fdai.TooManyPaths, RecursionError):
+                    bad_match.append("%r: undecided" % variant)
+                    continue
+                units = set()
+                for r in res:
+                    unit, newc = unit_of(r)
+                    if unit:
+                        units.add(unit)
+                        conv = [e for e in r.trace if e.kind == "call" and e.name.endswith("TryFrom::try_from")]
+                        if not (len(conv) == 1 and "DecimalNumericProgramData" in repr(conv[0].args[0]) and _all_bytes(conv[0].args[0]) == [b"1.5"]):
+                            bad_num.append(variant.decode())
+                ocs = {M.outcome(r) for r in res}
+                if text in lits:
+                    if len(units) != 1 or not ocs <= {"Ok", "Err(?)"}:
+                        bad_match.append("%r (a suffix the conversion lists): %s" % (variant, sorted(ocs)))
+                    else:
+                        seen.setdefault(text.decode(), set()).update(units)
+                else:
+                    if units or ocs != {"Err(IllegalParameterValue)"}:
+                        if text in derived and units:
+                            seen.setdefault(text.decode(), set()).update(units)
+                        else:
+                            bad_match.append("%r (not a suffix of %s): %s" % (variant, q, sorted(ocs)))
         for suf, units in sorted(seen.items()):
             n_entries += 1
             exp = expected_unit(o, q, suf)
@@ -116,8 +150,9 @@ def run(R, tier):
             if exp is None:
                 R.ok("R18.1", "%s:%s" % (q, suf), "%s (suffix not derivable from SCPI-99's table; informational)" % got)
                 continue
-            R.check(got == [exp] and qmods == {q}, "R18.1", "%s:%s" % (q, suf), "-> %s" % exp, "suffix %s of %s maps to %s; SCPI-99 multiplier rule (M = milli, MA = mega; MHZ/MOHM = mega) gives %s" % (suf, q, got, exp), where=b.span)
-        R.check(shape_ok and unknown_ok, "R18.3", "%s:matching" % q, "suffixes compared with eq_ignore_ascii_case on the token's suffix; unknown suffix -> -224", "suffix matching of %s is not a chain of case-insensitive comparisons ending in -224 for unknown suffixes" % q, where=b.span)
+            R.check(got == [exp] and qmods == {q}, "R18.1", "%s:%s" % (q, suf), "-> %s (in any letter case)" % exp, "suffix %s of %s maps to %s; SCPI-99 multiplier rule (M = milli, MA = mega; MHZ/MOHM = mega) gives %s" % (suf, q, got, exp), where=b.span)
+        R.check(not bad_num, "R18.6", "%s:number" % q, "the number scaled is the token's own numeric part, converted as a plain decimal element", "the numeric part is altered before conversion for suffixes %s" % sorted(set(bad_num))[:5], where=b.span)
+        R.check(not bad_match, "R18.3", "%s:matching" % q, "listed suffixes are accepted in any letter case; anything else is -224", "suffix matching of %s: %s" % (q, "; ".join(bad_match[:4])), where=b.span)
         # R18.2 bare number -> base unit
         res = eng.run(b, [M.token(eng, "DecimalNumericProgramData")])
         units = set()
@@ -209,6 +244,17 @@ def run(R, tier):
         conv_ok = all(len([e for e in r.trace if e.kind == "call" and e.name.endswith("TryFrom::try_from")]) == 1 for r in res)
         vars_ = {r.retval.fields[0].name for r in res if M.outcome(r) == "Ok" and isinstance(r.retval.fields.get(0), EnumV)}
         R.check(conv_ok and vars_ <= {"None"} and bool(res), "R18.4", "Amplitude<-%s" % name, "delegated to the unit conversion (Amplitude::None)", "Amplitude from %s: %s" % (name, [M.outcome(r) for r in res]), where=b.span)
+
+
+def _rv_operands(rv):
+    k = rv["k"]
+    if k in ("use", "cast", "unop", "repeat"):
+        return [rv["a"]]
+    if k == "binop":
+        return [rv["a"], rv["b"]]
+    if k == "aggr":
+        return list(rv["fields"])
+    return []
 
 
 def _all_bytes(snap):
